@@ -42,7 +42,8 @@ MANIFEST = {
     'technique': ('validator-dominates-constructor rules on the CFG of ParameterConfig.factory, '
                   'check-before-store ordering, dispatch-table totality on ParameterType, '
                   'handler exactness, provenance of the search space used by add_trial'
-                  '; must-pass-through formulation of the factory validators; member-wise evaluation of the feasibility dispatch; one config object per subspace (loop-invariant argument of SearchSpace.add)'),
+                  '; must-pass-through formulation of the factory validators; member-wise evaluation of the feasibility dispatch; one config object per subspace (loop-invariant argument of SearchSpace.add)'
+                  '; normaliser-only-reorders check; shallow-copy-then-mutate lint; cast-before-lookup dataflow on the children table; children-table truthiness lint'),
     'level_text': (
         'Static: every path that builds a parameter definition passes the documented validators; '
         'membership tests are performed in the documented order with the documented accessors and '
